@@ -3,6 +3,7 @@
   (i)  `writesAll tbl`: for every function of an effect table, the set of roots it may write through,
        directly or through any chain of calls — the least fixpoint of `step`, computed with fuel
        = number of functions.  Root sets are strictly ascending lists, so set equality is `=`.
+  (i′) `reachAll tbl`: for every function, the functions any call tree rooted in it can visit.
   (ii) a generic model of threads as lists of read / write events on locations.
 -/
 import YtkModel.EffectTypes
@@ -83,6 +84,61 @@ def Run.ConformsCalls (tbl : List FnSummary) (fn : Nat) : List (CallEdge × Run)
   | [] => True
   | (e, r) :: rest =>
     e ∈ (tbl.getD fn default).calls ∧ r.fn = e.callee ∧ Run.Conforms tbl r ∧ Run.ConformsCalls tbl fn rest
+end
+
+/-! ### (i′) reachable functions
+
+`reachAll tbl`: for every function of the table, the set of functions a call tree rooted in it can visit —
+itself and, for every call edge, everything its callee can visit.  Same shape as `writesAll` (least fixpoint with
+fuel).  A set of functions is a bit mask (bit `j` = function `j`, union is `|||`) and the whole relation of a
+table of `n` functions is ONE natural number: row `i` — the set reached from function `i` — occupies bits
+`i*n … i*n+n-1`.  (The kernel evaluates arithmetic on literals eagerly, so `decide` over this is fast.)  Used to
+state facts about every function BEHIND an entry point ("none of them calls an unknown callee", "none of them is
+a syntactic writer of a package variable"). -/
+
+abbrev ReachState := Nat
+
+/-- row `i` of the relation: the set (bit mask) reached from function `i` -/
+def rowOf (n : Nat) (S : ReachState) (i : Nat) : Nat := (S >>> (i * n)) % 2 ^ n
+
+def reachRow (n : Nat) (S : ReachState) (p : FnSummary × Nat) : Nat :=
+  p.1.calls.foldl (fun acc e => acc ||| rowOf n S e.callee) (rowOf n S p.2)
+
+def reachStep (tbl : List FnSummary) (S : ReachState) : ReachState :=
+  tbl.zipIdx.foldl (fun acc p => acc ||| (reachRow tbl.length S p <<< (p.2 * tbl.length))) 0
+
+def reachIter (tbl : List FnSummary) : Nat → ReachState → ReachState
+  | 0, S => S
+  | k + 1, S =>
+    let S' := reachStep tbl S
+    if S' = S then S else reachIter tbl k S'
+
+/-- every function reaches itself -/
+def reachInit (n : Nat) : ReachState := (List.range n).foldl (fun acc i => acc ||| (1 <<< (i * n + i))) 0
+
+def reachAll (tbl : List FnSummary) : ReachState := reachIter tbl (tbl.length + 1) (reachInit tbl.length)
+
+/-- the functions (table indices, ascending) any call tree rooted in function `i` can visit -/
+def reachOf (tbl : List FnSummary) (i : Nat) : List Nat :=
+  (List.range tbl.length).filter fun j => (reachAll tbl).testBit (i * tbl.length + j)
+
+/-- `R` is closed: every function reaches itself and whatever the callee of any of its call edges reaches. -/
+def ReachClosed (tbl : List FnSummary) (R : ReachState) : Prop :=
+  ∀ i ∈ List.range tbl.length,
+    R.testBit (i * tbl.length + i) = true ∧
+    (∀ e ∈ (tbl.getD i default).calls,
+      rowOf tbl.length R e.callee ||| rowOf tbl.length R i = rowOf tbl.length R i)
+
+instance (tbl : List FnSummary) (R : ReachState) : Decidable (ReachClosed tbl R) := by
+  unfold ReachClosed; infer_instance
+
+mutual
+/-- every function executed during the run -/
+def Run.fns : Run → List Nat
+  | .node fn _ calls => fn :: Run.fnsCalls calls
+def Run.fnsCalls : List (CallEdge × Run) → List Nat
+  | [] => []
+  | (_, r) :: rest => Run.fns r ++ Run.fnsCalls rest
 end
 
 /-! ### (ii) threads, races, interleavings -/
